@@ -184,14 +184,15 @@ def iterator_loops(fn):
 
 
 def while_let_pop_loops(fn):
-    """Loops of the shape `while let Some(x) = v.last() { ...; v.pop(); }`."""
+    """Loops of the shape `while let Some(x) = v.last() { ...; v.pop(); }` or `while let Some(x) = v.pop_if(..) { ... }`."""
     out = []
     for head, body in cfg.loops(fn).items():
         last = [bb for bb in body if fn.blocks[bb]["term"]["k"] == "call" and
                 (callee_of(fn.blocks[bb]["term"]).get("rpath") or "").endswith("::last")]
         pop = [bb for bb in body if fn.blocks[bb]["term"]["k"] == "call" and
-               (callee_of(fn.blocks[bb]["term"]).get("rpath") or "").endswith("::pop")]
-        if last and pop:
+               (callee_of(fn.blocks[bb]["term"]).get("rpath") or "").endswith(("::pop", "::pop_if"))]
+        popif = [bb for bb in pop if (callee_of(fn.blocks[bb]["term"]).get("rpath") or "").endswith("::pop_if")]
+        if (last and pop) or popif:
             out.append({"head": head, "body": body, "last_bbs": last, "pop_bbs": pop})
     return out
 
